@@ -224,7 +224,7 @@ func (r *Raft) info() Info {
 		Term:          r.term,
 		State:         r.state,
 		Leader:        r.leader,
-		SnapshotIndex: r.snaps.index,
+		SnapshotIndex: r.snaps.latestIndex(),
 		FirstLogIndex: r.log.PrevIndex() + 1,
 		LastLogIndex:  r.lastLogIndex,
 		LastLogTerm:   r.lastLogTerm,
